@@ -9,7 +9,7 @@ RULE = ('lookup/string: texts (ASCII and multi-byte UTF-8) of EVERY byte length 
         'strings), 0..63 (thread names) are enumerated in every run with pseudo-random content and encoded by the '
         'kernel-side chunk model; unrelated ordinary-domain records of the same thread and records of other threads '
         'are interleaved between the chunks. syscall: every path-taking decoder (66 names) x 0..7 lookups of '
-        'generated lengths, unrelated records anywhere in the window. Oracle: exactly one lookup/string trace per '
+        'generated lengths, unrelated records anywhere in the window, some lookups exact repeats of the previous one (same vnode id, same text). Oracle: exactly one lookup/string trace per '
         'text, none for continuation records, exact text / vnode id / string id, global_strings[id] == text; the '
         'quoted path parameters of the enclosing call equal the looked-up paths in lookup order at the reviewed '
         'positions. Non-trivial: a text of >= 3 records or a window with >= 2 lookups; distinct by (decoder, lengths).')
@@ -132,7 +132,7 @@ def prop_text(ctx, case):
 def prop_syscall(ctx, case):
     name, lens, seed, density = case['name'], case['lens'], case['seed'], case['density']
     tid = 0x42
-    paths = []
+    paths, vnodes, repeated = [], [], 0
     evs = [SC.ev(tid, name, 1, seed, 0)]
     for i, n in enumerate(lens):
         if n == 0:
@@ -143,8 +143,14 @@ def prop_syscall(ctx, case):
             text = '/' + ascii_exact(n - 1, seed + i)
         raw = text.encode()
         assert len(raw) == n
+        vnode = 1000 + i
+        if i and case.get('repeat', 0) >> i & 1:
+            # the same file looked up again (link(p, p), a restarted path walk): same vnode id, same text
+            text, raw, vnode = paths[-1], paths[-1].encode(), vnodes[-1]
+            repeated += 1
         paths.append(text)
-        evs += EV.lookup_events(tid, 1000 + i, raw)
+        vnodes.append(vnode)
+        evs += EV.lookup_events(tid, vnode, raw)
     evs.append(SC.ev(tid, name, 2, seed, 1))
     evs = weave(evs[:-1], seed, tid, density) + [evs[-1]]
     parser, traces = guard(feed, evs, case.get('same_tick', 0))
@@ -170,7 +176,7 @@ def prop_syscall(ctx, case):
             if got != f'"{exp}"':
                 raise Violation('path-param', f'{name} with {len(paths)} lookups: parameter {pos} is {got!r}, expected "{exp}"; text={txt!r}')
     ctx.note([name, lens, density > 0], nontrivial=len(lens) >= 2 or any(n > 56 for n in lens),
-             classes=[f'lookups:{min(len(lens), 3)}', 'multi-path' if name not in PP.PATH_PARAMS or len(PP.PATH_PARAMS[name]) > 1 else 'one-path'])
+             classes=[f'lookups:{min(len(lens), 3)}', *(['repeated-lookup'] if repeated else []), 'multi-path' if name not in PP.PATH_PARAMS or len(PP.PATH_PARAMS[name]) > 1 else 'one-path'])
 
 
 PROPS = {'text': prop_text, 'syscall': prop_syscall}
@@ -197,12 +203,12 @@ def run(ctx):
         for k in range(0, 8):
             lens = [lens_pool[(i + 3 * j + k) % len(lens_pool)] for j in range(k)]
             sc.append({'name': name, 'lens': lens, 'seed': base + i * 17 + k, 'density': (i + k) % 3, 'utf8': (i + k) % 4 == 0,
-                       'same_tick': [0, 0, 2, 3, 50][(i + 2 * k) % 5]})
+                       'same_tick': [0, 0, 2, 3, 50][(i + 2 * k) % 5], 'repeat': [0, 0, 2, 6, 4][(i + k) % 5]})
     ctx.run_enum('syscall', sc, prop_syscall, exhaustive_label='every path-taking decoder x 0..7 lookups')
     strat = st.fixed_dictionaries({'name': st.sampled_from(PATH_NAMES),
                                    'lens': st.lists(st.one_of(st.sampled_from(lens_pool), st.integers(0, 184)), max_size=7),
                                    'seed': S.u64, 'density': st.integers(0, 4), 'utf8': st.booleans(),
-                                   'same_tick': st.sampled_from([0, 0, 2, 3, 4, 50])})
+                                   'same_tick': st.sampled_from([0, 0, 2, 3, 4, 50]), 'repeat': st.sampled_from([0, 0, 0, 2, 4, 6, 255])})
     ctx.run_given('syscall', strat, prop_syscall, ctx.n(2500, 20000))
     tstrat = st.fixed_dictionaries({'kind': st.sampled_from(['lookup', 'global', 'threadname', 'threadname_prev']),
                                     'n': st.integers(0, 63), 'seed': S.u64, 'density': st.integers(0, 4), 'utf8': st.booleans()})
